@@ -3,7 +3,7 @@
    ("safe") whenever the model panics or runs out of fuel, "-" otherwise; column 3 the
    known-defect key of the input class. *)
 From PV Require Import Base.Text Base.Slice Model.NDPOptions Model.MiscHopByHop.
-From PV Require Import Model.HandlersLoop Model.HandlersDnsMsg.
+From PV Require Import Model.HandlersLoop Model.HandlersDnsMsg Model.MiscDecoders Model.HandlersProc.
 Open Scope string_scope.
 Open Scope N_scope.
 
@@ -73,10 +73,6 @@ Definition mdns_key (m : dmsg) : string :=
 Definition nbns_key (r : res unit) (valid : bool) (m : dmsg) : string :=
   match r, known_C08_nbns valid m with
   | Fuel, NNotSkipped => "nbns-answer-not-skipped"
-  | Panic, NArray => "nbns-node-name-array-bound"
-  | Panic, NNotSkipped =>
-      if existsb (fun r => (r_type r =? 33) && known_C08_nbns_array (of_bytes (r_data r))) (m_recs m)
-      then "nbns-node-name-array-bound" else "-"
   | _, _ => "-"
   end.
 
@@ -103,8 +99,95 @@ Definition dispatch_dns (kind : string) (args : list string) : string :=
     end
   else BADARGS.
 
+(* processors: nil / error are not distinguished *)
+Definition obs_ret (r : res unit) : string :=
+  match r with Ok _ | Err _ => "ret" | Panic => "panic" | Fuel => "fuel" end.
+Definition verdict_ret (r : res unit) (key : string) : string :=
+  if bad r then out3 (obs_ret r) "safe" key else out3 (obs_ret r) "-" "-".
+
+Definition slice_fuel (s : slice) : nat := (cap s + 8)%nat.
+
+Definition dispatch_misc (kind : string) (args : list string) : option string :=
+  if String.eqb kind "dhcpopt" then
+    match args with
+    | [h; sp] => match bytes_of_tok h, bytes_of_tok sp with
+                 | Some b, Some spare => let s := of_bytes_cap b spare in
+                                         Some (verdict (dhcp_parse_options (slice_fuel s) s) "-")
+                 | _, _ => Some BADARGS end
+    | _ => Some BADARGS end
+  else if String.eqb kind "dhcpvalid" then
+    match args with
+    | [h; sp] => match bytes_of_tok h, bytes_of_tok sp with
+                 | Some b, Some spare => let s := of_bytes_cap b spare in
+                                         Some (verdict (dhcp_is_valid (slice_fuel s) s) "-")
+                 | _, _ => Some BADARGS end
+    | _ => Some BADARGS end
+  else if String.eqb kind "lldp" then
+    match args with
+    | [h; sp; t] => match bytes_of_tok h, bytes_of_tok sp, nat_of_dec t with
+                    | Some b, Some spare, Some pdu =>
+                        let s := of_bytes_cap b spare in
+                        Some (verdict (lldp_get_pdu (slice_fuel s) s pdu 0)
+                                (if known_C08_lldp_short_tlv s pdu then "lldp-tlv-length-below-2" else "-"))
+                    | _, _, _ => Some BADARGS end
+    | _ => Some BADARGS end
+  else if String.eqb kind "p8023" then
+    match args with
+    | [_; h] => match bytes_of_tok h with
+                | Some b => Some (verdict (process_8023 (of_bytes b)) "-")
+                | None => Some BADARGS end
+    | _ => Some BADARGS end
+  else if String.eqb kind "ssdpcc" then
+    match args with
+    | [h] => match bytes_of_tok h with
+             | Some v => Some (verdict (cache_control v)
+                                 (if known_C08_ssdp_cc v then "ssdp-cache-control-max-age-last" else "-"))
+             | None => Some BADARGS end
+    | _ => Some BADARGS end
+  else if String.eqb kind "ssdp" then
+    match args with
+    | [_; k; ho; nts; mn; cc; man; st] =>
+        match N_of_dec k, bool_of_tok ho, N_of_dec nts, bool_of_tok mn, bytes_of_tok cc, bool_of_tok man, bool_of_tok st with
+        | Some k', Some ho', Some nts', Some mn', Some cc', Some man', Some st' =>
+            let v := mkSsdp k' ho' nts' mn' cc' man' st' in
+            Some (verdict (process_ssdp v) (if known_C08_ssdp v then "ssdp-cache-control-max-age-last" else "-"))
+        | _, _, _, _, _, _, _ => Some BADARGS end
+    | _ => Some BADARGS end
+  else if String.eqb kind "arp" then
+    match args with
+    | [_; h] => match bytes_of_tok h with
+                | Some b => Some (verdict_ret (arp_process (of_bytes b)) "-")
+                | None => Some BADARGS end
+    | _ => Some BADARGS end
+  else if String.eqb kind "icmp4" then
+    match args with
+    | [_; h] => match bytes_of_tok h with
+                | Some b => let s := of_bytes b in
+                            Some (verdict_ret (icmp4_process s)
+                                    (if known_C08_icmp4_inner s then "icmp4-unreachable-inner-ip-totallen-below-ihl" else "-"))
+                | None => Some BADARGS end
+    | _ => Some BADARGS end
+  else if String.eqb kind "icmp6" then
+    match args with
+    | [_; h; hf] => match bytes_of_tok h, bool_of_tok hf with
+                    | Some b, Some host =>
+                        let s := of_bytes b in
+                        Some (verdict_ret (icmp6_process lbl_any (slice_fuel s) host s)
+                                (if (nth 0 b 0 =? 134) && host
+                                 then ndp_key (mkSlice (skipn 16 (arr s)) (len s - 16)) else "-"))
+                    | _, _ => Some BADARGS end
+    | _ => Some BADARGS end
+  else if String.eqb kind "dhcp4" then
+    match args with
+    | [_; h] => match bytes_of_tok h with
+                | Some b => let s := of_bytes b in Some (verdict_ret (dhcp4_process (slice_fuel s) s) "-")
+                | None => Some BADARGS end
+    | _ => Some BADARGS end
+  else None.
+
 Definition dispatch (kind : string) (args : list string) : string :=
   if String.eqb kind "mdns" || String.eqb kind "nbns" then dispatch_dns kind args else
+  match dispatch_misc kind args with Some r => r | None =>
   match args with
   | [h; sp] =>
       match bytes_of_tok h, bytes_of_tok sp with
@@ -125,7 +208,7 @@ Definition dispatch (kind : string) (args : list string) : string :=
       | _, _ => BADARGS
       end
   | _ => BADARGS
-  end.
+  end end.
 
 Definition dispatch_line (l : string) : string :=
   match words l with
